@@ -517,8 +517,19 @@ ASSUMPTIONS = [
 
 
 def run(tier, seed):
+    # the real ports the registrations are built from (third anchored mechanism, runtime.allocate_network_ports):
+    # Node/Ports.v, Props/C16Ports.v, harness/props/ports.py
+    from . import ports
+
+    def extra(r, cases, obs):
+        cov = _extra(r, cases, obs)
+        u = ports.stage(r, seed, tier)
+        cov['extra_obligations'] = cov.get('extra_obligations', 0) + u.pop('ports_obligations')
+        cov.update(u)
+        return cov
     core.standard_run(PID, tier, seed, {
-        'model_vos': ['Node/Owners', 'Node/NetReg', 'Gen/Tables'], 'table_sections': ['c16', 'source_shape'],
+        'model_vos': ['Node/Owners', 'Node/NetReg', 'Gen/Tables'],
+        'table_sections': ['c16', 'source_shape'] + list(ports.SECTIONS),
         'preamble': PREAMBLE, 'run_fn': RUN_FN, 'in_type': IN_TYPE,
         'gen_case': gen_case,
         'impl_run': impl_run,
@@ -535,10 +546,14 @@ def run(tier, seed):
                 'start+finish on a populated host, or random net_put/start/finish/net_del interleavings; '
                 'non-trivial = a started container with >= 2 kinds of registrations is finished while other '
                 'containers\' entries are on the host',
-        'trusted': TRUSTED, 'assumptions': ASSUMPTIONS, 'anchors': ANCHORS, 'extra': _extra,
+        'trusted': list(TRUSTED) + list(ports.TRUSTED), 'assumptions': list(ASSUMPTIONS) + list(ports.ASSUMPTIONS),
+        'anchors': ANCHORS, 'extra': extra,
     })
 
 
 def replay_case(case):
+    if isinstance(case, dict) and case.get('engine') == 'E-ports':
+        from . import ports
+        return ports.replay_case(case)
     v = oracle(case, impl_run(case))
     return v[0] if v else None
